@@ -86,6 +86,12 @@ func docAnswers(o geojson.Object, ps []geojson.Object) []byte {
 		if p.Within(o) {
 			b |= 16
 		}
+		if p.Contains(o) {
+			b |= 8
+		}
+		if o.Within(p) {
+			b |= 2
+		}
 		if p.Intersects(o) {
 			b |= 32
 		}
